@@ -49,13 +49,21 @@ Definition addrxlat_doc (s : Z) : bool :=
     else if (status == ADDRXLAT_ERR_NODATA) ret = KDUMP_ERR_NODATA;
     else ret = KDUMP_ERR_ADDRXLAT;
     set_error(ctx, ret, "%s", ...); return ret;          (status flag: message added) *)
-Definition addrxlat2kdump (status : Z) : Z * bool :=
+Definition addrxlat2kdump_gen (bounded : bool) (status : Z) : Z * bool :=
   if status =? ADDRXLAT_OK then (KDUMP_OK, false)
   else
-    let ret := if status <? 0 then u32 (- status)
+    let ret := if (status <? 0) && (negb bounded || (- KDUMP_ERR_ADDRXLAT <=? status))
+               then u32 (- status)
                else if status =? ADDRXLAT_ERR_NODATA then KDUMP_ERR_NODATA
                else KDUMP_ERR_ADDRXLAT in
     (ret, true).
+
+(** [bounded = true]: after fixes/74-addrxlat2kdump-foreign-custom-status.patch a
+    negative (custom) status is mapped back to a kdump status only if it is
+    one that kdump2addrxlat can have produced (-1 .. -KDUMP_ERR_ADDRXLAT); any
+    other custom code of an application callback becomes KDUMP_ERR_ADDRXLAT.
+    Before it ([bounded = false]) -100 became the undocumented status 100. *)
+Definition addrxlat2kdump := addrxlat2kdump_gen true.
 
 (** if (status == KDUMP_OK) return ADDRXLAT_OK;
     if (status == KDUMP_ERR_NODATA) ret = ADDRXLAT_ERR_NODATA; else ret = -status;
